@@ -81,7 +81,7 @@ def integrator_trace(run, it):
 def run(run_, tier):
     it = solv_model.make_interp(run_)
     run_.assume("A1 reals; A4 constraint function/Jacobian are uninterpreted and consistent; convergence (liveness) not claimed")
-    run_.trust("dh2_flow_dmom returns the true flow Jacobian blocks (C07); jacob_constr_inner_product(...).inv is the inverse (C10)")
+    run_.trust("jacob_constr_inner_product(...).inv is the inverse (C10); dh2_flow_dmom == flow Jacobian is imported from C07 as obligations")
     run_.replay_for("", lambda w: {"script": "c04_constrained.py", "args": ["all", json.dumps(w or {})]})
     solv_model.projection_solvers(run_, it, "C04")
     it2 = integ_interp(run_)
@@ -100,6 +100,9 @@ def run(run_, tier):
     generic_systems.run_generic_systems(run_, keep=lambda oid: any(t in oid for t in ("projection-", "gram", "sampled-momentum", "metric-inverse")))
     try:
         from . import symla_systems
+        # premise of the solver contracts (was a trusted statement): dh2_flow_dmom is the Jacobian of the real h2_flow with respect to the momentum, for every
+        # metric type, both signs of the time interval, and after the metric attribute was replaced between two uses with the same time step (C07 obligations)
+        symla_systems.run_cases(run_, "c07_cases", keep=lambda oid: "dh2_flow_dmom" in oid)
         symla_systems.c04_obligations(run_, tier)
     except ImportError:
         run_.notes.append("closed-form cotangent projection (Engine B) not built yet: not claimed in this run")
